@@ -140,6 +140,7 @@ SetBulkOps(ts) ==
 FamilyOps(ts) ==
   IF Mode = "set"
   THEN (IF "core" \in Family THEN SetCoreOps(ts) ELSE {}) \cup (IF "bulk" \in Family THEN SetBulkOps(ts) ELSE {})
+       \cup (IF "fmt" \in Family THEN {[name |-> "s_fmt", style |-> st] : st \in FmtStyles} ELSE {})
        \cup (IF "clone" \in Family THEN CloneOps(ts) ELSE {}) \cup (IF "serde" \in Family THEN SerdeOps(ts) ELSE {})
   ELSE (IF "core" \in Family THEN CoreOps(ts) ELSE {})
        \cup (IF "unchecked" \in Family THEN UncheckedOps(ts) ELSE {})
